@@ -1421,13 +1421,22 @@ impl CompileState<'_> {
             false
         };
 
+        // Counting patterns against the number of values of the type only works when every
+        // pattern is a distinct literal. Optionals and results have binding patterns that cover
+        // a whole variant (and may repeat, e.g. three `Some(x)` arms for option[bool]): their
+        // exhaustiveness is decided per variant above.
+        let per_variant = matches!(
+            scrutinee_type.inner,
+            TypeKind::Optional(_) | TypeKind::Result(_)
+        );
         let missing_default = default_count == 0
             && !result_exhaustive
             && !optional_exhaustive
-            && self
-                .m
-                .cardinality(&scrutinee_type.inner)
-                .is_none_or(|c| c > all_values.len() as u64);
+            && (per_variant
+                || self
+                    .m
+                    .cardinality(&scrutinee_type.inner)
+                    .is_none_or(|c| c > all_values.len() as u64));
 
         if missing_default {
             return Err(self.err(MissingDefaultPattern(span)));
